@@ -13,6 +13,16 @@ reached and not yet run (the statement is silent); but the failing call has
 run, the others are still pending and listed, and the Clock must stay usable:
 the next advance that completes has to run everything it reaches.
 
+Time passing inside a call (per-run knob, off in a third of the runs): a running
+call may itself call advance(amount) - "this callable took that long", the idiom
+of the LoopingCall tests - and then go on scheduling and modifying calls at the
+new time.  The clock moves while the outer advance is in progress; every advance,
+nested or outermost, that returns normally must have run each call whose time the
+clock had reached by then (also calls created or pulled in after the nested advance
+returned).  A failing call cuts the nested advance short; the call that issued it
+either lets the exception through (the outer advance is cut short too) or contains
+it and carries on - the outer advance then still has to run what was left.
+
 Oracle: models.timers.TimerModel (mode "clock"), shared with C08, consulted on
 every call the Clock runs, at the end of every advance and after every
 operation (getDelayedCalls, getTime, seconds).
@@ -27,6 +37,8 @@ ENGINE = "clock"
 LEVEL = "exploration"
 TECHNIQUE = "deterministic simulation: seeded timer operations and advances on a real task.Clock vs reference timer model"
 QUICK_RUNS = 32000
+NESTED_CHOICES = (0.0, 0.2, 0.4)   # per-run probability that an operation issued from inside a running call is an advance of the clock
+MAX_NEST = 3                       # advances inside calls run by advances inside calls ... at most this deep
 TWIN_P = 0.08   # this share of the runs drives two independent instances of the scenario one after the other (detsim.runner._run_scenario)
 USES_DEPTH = True   # thorough tier: history length bound scales with sim.depth (1..3) beyond the quick tier\'s run indices
 BATCH = 100
@@ -36,13 +48,18 @@ COMPONENTS = {"real": ["twisted.internet.task.Clock.callLater/advance/pump/getDe
               "stub": ["nothing below Clock exists; the scenario is Clock's caller (tape-chosen operations)"]}
 RULE = ("run = up to 100 tape-chosen operations over up to 40 calls (callLater with dyadic delay >= 0 / cancel / reset / delay(+-) on pending or dead calls, "
         "from the top level or from inside a running call / advance by 0, k/8, exactly to the earliest pending call, or far / pump of 2-3 amounts), "
+        "in 2/3 of runs an operation issued from inside a running call is, with probability 0.2 or 0.4, an advance of the clock by 0, k/8 or exactly to the earliest "
+        "pending call (nested at most 3 deep; followed by the call's further operations at the new time; a failing call inside it is let through or contained by tape), "
         "in 2/3 of runs each call ends by raising with probability 0.1 or 0.3 (the exception leaves advance(); the Clock is used on), then a drain (repeated while a failing call cuts it short); "
         "non-trivial = at least 3 calls ran AND a pending call was cancelled AND one was rescheduled AND two never-rescheduled calls with equal time ran")
 ASSUMPTIONS = ["delays passed to callLater and reset are >= 0, advance amounts are >= 0; all times are multiples of 1/8 s (exact in binary floating point)",
                "'nondecreasing scheduled time' is checked within one advance and not for a call that a negative delay() moved, during that advance, "
                "to before a call that had already run (no implementation could satisfy that); 'no pending call is scheduled earlier when a call runs' is always checked",
                "an advance that a failing call's exception cut short is not 'the first advance that reaches' the time of the calls it left pending (no verdict for that advance); "
-               "the next advance that returns normally is - also advance(0)"]
+               "the next advance that returns normally is - also advance(0)",
+               "an advance issued from inside a running call is an advance like any other: when it returns normally nothing whose time the clock has reached is pending, "
+               "and the advance in progress around it has 'reached' every time the clock got to while it was in progress (a call created at or moved to such a time "
+               "after the inner advance returned runs before the outer one returns); the order clauses apply across the nesting unchanged"]
 
 
 class Scenario(TimerScenario):
@@ -54,6 +71,8 @@ class Scenario(TimerScenario):
         self.max_calls = 40
         self.ties = 0
         self.leftover = []   # calls that were due when a failing call cut an advance short (evidence only)
+        self.nested_p = 0.0  # drawn from NESTED_CHOICES in main()
+        self.level = 0       # advances in progress that were issued from inside a running call
 
     def impl_call_later(self, delay, fn, cid):
         return self.c.callLater(delay, fn, cid)
@@ -80,6 +99,62 @@ class Scenario(TimerScenario):
             return [16.0]
         sim.probe("pump")
         return [sim.draw_int(0, 8, "dt") * EIGHTH for _ in range(sim.draw_int(2, 3, "pump-n"))]
+
+    # ---- time passing inside a running call
+    def choose_basic_op(self):
+        if self.nested_p and self.level < MAX_NEST and self.sim.draw_bool(self.nested_p, "nested-advance"):
+            return "advance"
+        return TimerScenario.choose_basic_op(self)
+
+    def do_op(self, op, where):
+        if op == "advance":
+            self.sim.step(self.STEP_CAP * self.sim.depth)
+            self.nested_advance()
+        else:
+            TimerScenario.do_op(self, op, where)
+
+    def nested_advance(self):
+        """The running call lets time pass: advance() from inside a call, while the advance that runs the call is in
+        progress.  On return the caller (TimerScenario._fire) goes on with the call's remaining operations at the new time."""
+        sim, m = self.sim, self.m
+        kind = sim.draw_weighted([("small", 5), ("to-next", 3), ("zero", 1)], "nested-kind")
+        if kind == "small":
+            a = sim.draw_int(1, 16, "dt") * EIGHTH
+        elif kind == "to-next":
+            e = m.earliest()
+            a = max(0.0, e - m.now) if e is not None else 0.0
+        else:
+            a = 0.0
+        sim.fault("clock_advanced_inside_running_call")
+        if self.level:
+            sim.probe("advance_nested_two_deep")
+        if any(m.time_of(c) <= m.now + a for c in m.pending_ids()):
+            sim.probe("nested_advance_reaches_pending_call")
+        sim.sim_time += a
+        m.begin_nested(a)
+        sim.event("nested-advance", a, "now=%r" % m.now)
+        self.level += 1
+        try:
+            self.c.advance(a)
+        except (Violation, StepLimit):
+            raise
+        except ScriptedFailure:
+            self.level -= 1
+            m.abort_nested()
+            sim.fault("nested_advance_cut_short_by_failing_call")
+            if sim.draw_bool(0.5, "contain"):
+                sim.probe("failure_contained_by_call_that_advanced")
+                sim.event("nested-advance-cut-short", "contained")
+                return
+            sim.event("nested-advance-cut-short", "let-through")
+            raise
+        except Exception as e:
+            if self.harness_exc is not None:
+                raise
+            sim.fail("advance-raised", type(e).__name__, "%s: %s" % (type(e).__name__, e))
+        self.level -= 1
+        self.chk(m.end_nested(), "nested-advance")
+        self.check_views("in-call")
 
     def run_passes(self, amounts, use_pump):
         """One advance per amount.  With pump() the generator below is the only
@@ -129,6 +204,7 @@ class Scenario(TimerScenario):
                 raise
             sim.fail("advance-raised", type(e).__name__, "%s: %s" % (type(e).__name__, e))
         self.reraise()
+        self.level = 0
         if cut_short and m.in_pass:
             sim.fault("advance_cut_short_by_failing_call")
             sim.event("advance-cut-short")
@@ -158,7 +234,8 @@ class Scenario(TimerScenario):
         nops = sim.draw_int(4, 100 * sim.depth, "nops")
         self.inner_p = sim.draw_choice([0.0, 0.3, 0.5], "inner-ops")
         self.max_calls = sim.draw_choice([40, 8, 20], "max-calls")
-        sim.config = {"nops": nops, "inner_p": self.inner_p, "max_calls": self.max_calls}
+        self.nested_p = sim.draw_choice(NESTED_CHOICES, "nested-p")
+        sim.config = {"nops": nops, "inner_p": self.inner_p, "max_calls": self.max_calls, "nested_p": self.nested_p}
         for _ in range(nops):
             room = len(self.order) < self.max_calls
             wc, wr = self.touch_weights()
@@ -205,6 +282,8 @@ MUTANTS = [
     "task.py Clock.advance: re-entrancy flag set before the loop and cleared after it without try/finally (a failing call leaves it set; later advances run nothing)  -- caught (needs failing calls): runs-in-first-advance",
     "task.py Clock.advance: a failing call is put back at the head of the list (called = 0) before its exception is re-raised  -- caught (needs failing calls): getDelayedCalls-exact",
     "task.py Clock.advance: a failing call's exception is swallowed and ends the loop (advance returns normally with due calls left)  -- caught (needs failing calls): runs-in-first-advance",
+    "task.py Clock.advance: the clock is read once before the loop instead of once per call (a call that let time pass and then scheduled work at the new time leaves it pending)  -- caught (needs advances from inside calls): runs-in-first-advance (advance / nested-advance)",
+    "task.py Clock.advance: rightNow saved before and restored after each call (time that passed inside a call is undone)  -- caught (needs advances from inside calls): clock-reads-model-time / runs-in-first-advance",
 ]
 
 
